@@ -167,7 +167,7 @@ def main():
                     json.dump({"Replace": {f'/repo/{f}': f'{wt}/{f}'}}, open(ov, 'w'))
                     work, outd = f'/tmp/mutwork-{chk}-{w}', f'/tmp/mutout-{chk}-{w}'
                     os.makedirs(work, exist_ok=True); os.makedirs(outd, exist_ok=True)
-                    env = dict(os.environ, VERIF_REPO=wt, VERIF_WORK=work, VERIF_OUT=outd, VERIF_GOFLAGS=f'-overlay={ov}')
+                    env = dict(os.environ, VERIF_REPO=wt, VERIF_WORK=work, VERIF_OUT=outd, VERIF_GOFLAGS=f'-overlay={ov}', VERIF_STAGE_LIMIT=str(max(120, tmo // 3)))
                     rc, out = sh(['/verif/run.sh', chk, tier], env=env, timeout=tmo)
                     vl = [l for l in out.split('\n') if l.startswith('VIOLATION')]
                     if rc == 1 and vl:
